@@ -11,6 +11,7 @@ mod c12;
 mod queries;
 mod engine_run;
 mod c04;
+mod c09;
 mod c17;
 mod tables;
 
@@ -35,6 +36,16 @@ fn main() {
             runq::cleanup_tmp();
             eprintln!("{} witnesses fail", failed);
         }
+        "tzprobe" => {
+            println!("{}", witness::tzprobe(args.get(2).map(|s| s.as_str()).unwrap_or("")));
+            runq::cleanup_tmp();
+        }
+        "tzscan" => {
+            let seed: u64 = args.get(2).and_then(|s| s.parse().ok()).unwrap_or(1);
+            let n: usize = args.get(3).and_then(|s| s.parse().ok()).unwrap_or(1000);
+            c09::tzscan(seed, n);
+            runq::cleanup_tmp();
+        }
         "tables" => {
             // harness tables <outdir>: regenerate Generated/*.lean from the running code
             let out = args.get(2).expect("outdir");
@@ -52,6 +63,7 @@ fn main() {
                 "C16" => c16::run(&params),
                 "C03" => c03::run(&params),
                 "C04" => c04::run(&params),
+                "C09" => c09::run(&params),
                 "C10" => c10::run(&params),
                 "C12" => c12::run(&params),
                 "C17" => c17::run(&params),
